@@ -1,13 +1,19 @@
 """C19 - conformer (SD) and SMILES files round-trip (model M8 = Model/Files.v, theorems in Properties/C19.v).
 
-Theorem-backed: SMILES table write/read on byte strings, the 4-decimal energy codec, the conformer-limit loops and the
-save / clear / restore of the property map in mol_to_sdf / mol_from_sdf (for every molecule, limits and property map).
+Theorem-backed: SMILES table write/read on UTF-8 byte strings (incl. the non-ASCII white space str.split() knows), the
+4-decimal energy codec, the conformer-limit loops and the save / clear / restore of the property map in mol_to_sdf /
+mol_from_sdf (for every molecule, limits and property map without line feeds in its string values).
 Tested only: what RDKit's SDWriter / ForwardSDMolSupplier and smart_open do (molecule identity, coordinates at 4 decimals,
-properties as strings, compression) - exercised here on real files."""
+properties as strings, compression) - exercised here on real files.
+
+Every case is built from a JSON-able parameter dict by a `make_<stream>` function; `run` draws the parameters, `replay` re-runs
+the recorded ones on the implementation and on the model."""
+import base64
 import bz2
 import gzip
 import json
 import os
+import shutil
 
 import numpy as np
 
@@ -19,13 +25,32 @@ TOL = '(Qmake 1 1000000000)'
 EXTS = ['.sdf', '.sdf.gz', '.sdf.bz2']
 ERR = {'ValueError': 'EValue', 'AttributeError': 'EOther', 'UnboundLocalError': 'EOther', 'StopIteration': 'EOther',
        'KeyError': 'EKey', 'IndexError': 'EIndex', 'TypeError': 'EType'}
+ZEROISH = [0.0, -0.0, 3e-5, -4e-5, 4.9e-5, -1e-9]      # energies that are, or format to, 0.0000 (a truthiness test drops them)
+# white space of Unicode beyond ASCII that str.split() splits at, and two non-spaces sharing their UTF-8 lead bytes
+UWS = ['\x85', '\xa0', '\u1680', '\u2000', '\u2009', '\u2028', '\u2029', '\u202f', '\u205f', '\u3000']
+LEAD_NOT_WS = ['\u20ac', '\xa9', '\u200b']
+
+
+def _settle():
+    """An SDWriter whose file was closed under it (mol_to_sdf raised inside its `with`) complains from its destructor and leaves
+    a pending error behind that surfaces in the next C call: collect now and swallow that."""
+    import gc
+    for _ in range(3):
+        try:
+            gc.collect()
+            return
+        except Exception:
+            pass
 
 
 def _attempt(f):
     try:
         return ('ok', f())
-    except Exception as e:           # mapped to the model's small enum; unknown ones become EOther and will disagree loudly
-        return ('err', ERR.get(type(e).__name__, 'EOther:' + type(e).__name__))
+    except Exception as e:           # unknown classes are not `err` constructors: the comparison fails loudly
+        tag = ERR.get(type(e).__name__, 'EUnexpected_' + type(e).__name__)
+        del e
+        _settle()
+        return ('err', tag)
 
 
 def _raw(path):
@@ -38,8 +63,40 @@ def _optz(x):
     return 'None' if x is None else '(Some %s)' % core.zlit(x)
 
 
+def good_token(s):
+    """Python twin of Model/Files.v good_token_b (cross-checked in Coq on every table case)."""
+    b = s.encode('utf-8')
+    return len(b) > 0 and all(not (c == 32 or 9 <= c <= 13 or 28 <= c <= 31 or c in (194, 225, 226, 227)) for c in b)
+
+
+class Made(object):
+    def __init__(self, payload):
+        self.payload = payload
+        self.cases = []
+        self.fails = []
+        self.skips = []
+        self.stats = {}
+        self.nontrivial = False
+
+    def case(self, sub, expr, model):
+        self.cases.append((sub, expr, model))
+
+    def fail(self, what, key, **extra):
+        self.fails.append((what, key, extra))
+
+
 # --------------------------------------------------------------------------- molecules for the SD stream
-def base_molecules(ctx):
+def mol_to_b64(m):
+    from rdkit import Chem
+    return base64.b64encode(m.ToBinary(int(Chem.PropertyPickleOptions.AllProps) | int(Chem.PropertyPickleOptions.CoordsAsDouble))).decode()
+
+
+def mol_from_b64(s):
+    from rdkit import Chem
+    return Chem.Mol(base64.b64decode(s))
+
+
+def base_molecules(ctx, skipped):
     from rdkit import Chem
     import glob
     mols = []
@@ -48,6 +105,7 @@ def base_molecules(ctx):
         full = cg.read_first_confs(p, 12)
         # the shipped files of molecules with unspecified stereocentres hold conformers that are different stereoisomers in 3D; the SD
         # reader perceives stereo from the first record, so only conformers that agree with conformer 0 make "the same molecule"
+
         def from3d(cid):
             cp = Chem.Mol(full)
             Chem.AssignStereochemistryFrom3D(cp, confId=cid, replaceExistingTags=True)
@@ -56,6 +114,8 @@ def base_molecules(ctx):
         same = [i for i in ids if from3d(i) == from3d(ids[0])]
         for k in (1, 3, 5):
             if len(same) < k:
+                key = 'sdf: shipped file has fewer than %d conformers that are the same stereoisomer in 3D' % k
+                skipped[key] = skipped.get(key, 0) + 1
                 continue
             m = Chem.Mol(full)
             for i in ids:
@@ -74,14 +134,13 @@ def base_molecules(ctx):
     return mols
 
 
-def vary(rng, mol):
+def vary(rng, mol, ci):
     """One variation of a base molecule: ids, energies, name, extra properties.  Returns (mol, description)."""
     from rdkit import Chem
     from e3fp.conformer.util import add_conformer_energies_to_mol
     m = Chem.Mol(mol)
     d = {}
     n = m.GetNumConformers()
-    # conformer ids
     d['ids'] = rng.choice(['contiguous', 'contiguous', 'removed', 'renumbered']) if n >= 3 else 'contiguous'
     if d['ids'] == 'removed':
         m.RemoveConformer(rng.randrange(0, n - 1))
@@ -90,14 +149,20 @@ def vary(rng, mol):
         new_ids = sorted(rng.sample(range(0, 3 * n), n))
         if rng.random() < 0.3:
             rng.shuffle(new_ids)
-        for c, i in reversed(list(zip(confs, new_ids))):
+        for c, i in zip(confs, new_ids):
             c.SetId(i + 1000)
         for c in m.GetConformers():
             c.SetId(c.GetId() - 1000)
     n = m.GetNumConformers()
-    # energies
-    d['energies'] = rng.choice(['none', 'none', 'none', 'formatted', 'formatted', 'formatted', 'formatted', 'formatted', 'raw', 'fewer', 'more', 'own-Energy', 'empty'])
-    vals = [rng.choice([rng.uniform(-50, 200), rng.choice([0.03125, 0.09375, 2.00005, -0.00001, 7, 1e-5, 123456.78905])]) for _ in range(n + 2)]
+    d['energies'] = rng.choice(['none', 'none', 'none', 'formatted', 'formatted', 'formatted', 'formatted', 'formatted', 'raw', 'fewer', 'more',
+                                'own-Energy', 'empty'])
+    vals = [rng.choice([rng.uniform(-50, 200), rng.choice([0.03125, 0.09375, 2.00005, 7, 123456.78905] + ZEROISH)]) for _ in range(n + 2)]
+    # zero, negative zero and |e| < 5e-5 are in every other energy list by construction (relative energies start at 0)
+    if ci % 2 == 0:
+        vals[rng.randrange(n)] = ZEROISH[(ci // 2) % len(ZEROISH)]
+    if ci % 6 == 0:
+        vals = [ZEROISH[(ci // 6 + j) % len(ZEROISH)] for j in range(n + 2)]       # nothing but zeros
+    d['zeroish'] = sum(1 for v in vals[:n] if abs(v) < 5e-5)
     if d['energies'] == 'formatted':
         add_conformer_energies_to_mol(m, vals[:n])
     elif d['energies'] == 'raw':
@@ -107,262 +172,402 @@ def vary(rng, mol):
     elif d['energies'] == 'more':
         add_conformer_energies_to_mol(m, vals[:n + 2])
     elif d['energies'] == 'own-Energy':
-        m.SetProp('Energy', rng.choice(['12.5', '3.0000', 'high']))
+        m.SetProp('Energy', rng.choice(['12.5', '3.0000', 'high', '0.0000']))
     elif d['energies'] == 'empty':
         m.SetProp('_ConfEnergies', rng.choice(['', 'abc', '1.0|x']))
     else:
         d['energies'] = 'none'
-    # name and other properties
-    d['name'] = rng.choice(['keep', 'keep', 'keep', 'none', 'unicode'])
+    d['name'] = rng.choice(['keep', 'keep', 'keep', 'none', 'unicode', 'line-feed' if ci % 5 == 0 else 'keep'])
     if d['name'] == 'none':
         m.ClearProp('_Name')
     elif d['name'] == 'unicode':
-        m.SetProp('_Name', rng.choice(['mol_éß', 'CHEMBL1-2_3', 'x' * 70]))
+        m.SetProp('_Name', rng.choice(['mol_\xe9\xdf', 'CHEMBL1-2_3', 'x' * 70, 'a\xa0b', 'tab\there']))
+    elif d['name'] == 'line-feed':
+        m.SetProp('_Name', rng.choice(['a\nb', 'first\nsecond line']))       # the record becomes unreadable
+    d['value'] = 'plain'
     if rng.random() < 0.5:
-        m.SetProp('assay', rng.choice(['IC50=3nM', '42', 'a b c']))
+        m.SetProp('assay', rng.choice(['IC50=3nM', '42', 'a b c', 'x\ry', '\u2028 sep', '']))
+    if ci % 7 == 3:
+        d['value'] = 'line-feed'                                               # outside the SD codec's domain (RDKit edits or drops the value)
+        m.SetProp('note', rng.choice(['x\n\ny', 'x\n', 'two\nlines', '\nlead']))
     if rng.random() < 0.3:
         m.SetProp('_hidden', 'h1')
     return m, d
 
 
-def in_domain(d, wl, rl):
-    """The domain of the property statement: consistent molecule, limits that allow at least one conformer."""
-    return d['energies'] in ('none', 'formatted') and (wl is None or wl == -1 or wl >= 1) and (rl is None or rl == -1 or rl >= 1)
+def sd_safe(props):
+    return all('\n' not in v for v in props.values())
+
+
+def draw_sd(rng, bases, ci):
+    bname, base = bases[ci % len(bases)] if ci < len(bases) else rng.choice(bases)
+    mol, d = vary(rng, base, ci)
+    n = mol.GetNumConformers()
+    return {'base': bname, 'variation': d, 'mol_b64': mol_to_b64(mol), 'ext': EXTS[ci % 3],
+            'write_limit': rng.choice([None, None, -1, 1, 2, 2, n, n + 3] if ci % 11 else [0, 1, -3]),
+            'read_limit': rng.choice([None, None, -1, 1, 2, n + 1] if ci % 13 else [0, 1, -3]),
+            'file': rng.choice(['conf', 'CHEMBL12_3', 'a.b']) + EXTS[ci % 3]}
+
+
+def make_sd(p, workdir):
+    from rdkit import Chem
+    from e3fp.conformer import util as U
+    md = Made(dict(p, stream='sdf'))
+    mol = mol_from_b64(p['mol_b64'])
+    d, wl, rl = p['variation'], p['write_limit'], p['read_limit']
+    n = mol.GetNumConformers()
+    path = os.path.join(workdir, 'sd_%d' % len(os.listdir(workdir)), p['file'])
+    before = cg.mol_obs(mol)
+    before_sig = cg.mol_signature(mol)
+    md.payload.update(props_before=before['props'], conf_ids=[i for i, _ in before['confs']])
+    w = _attempt(lambda: U.mol_to_sdf(mol, path, conf_num=wl))
+    try:
+        after = cg.mol_obs(mol)
+    except SystemError:              # see _settle
+        after = cg.mol_obs(mol)
+    md.payload['props_after_write'] = after['props']
+    r = ('err', w[1]) if w[0] == 'err' else _attempt(lambda: U.mol_from_sdf(path, conf_num=rl))
+    fb = os.path.basename(path).split('.sdf')[0]
+    safe = sd_safe(before['props'])
+    value_unsafe = any('\n' in v for k, v in before['props'].items() if k != '_Name')
+    md.stats = {'error': r[0] == 'err', 'safe': safe}
+    if value_unsafe:
+        # a property value with a line feed: what comes back is RDKit's business (value dropped or edited) - outside the `codec`
+        # hypothesis.  Only the write half (the in-memory molecule) is compared with the model.
+        md.skips.append('read-back not compared: property value with a line feed (outside the SD codec hypothesis)')
+        model = 'mol_to_sdf Z (list Q) %s %s' % (cg.mol_lit(before), _optz(wl))
+        exp = 'match %s with Ok mr => mol_close 0 (fst mr) %s | Raises _ => false end' % (model, cg.mol_lit(after)) if w[0] == 'ok' else \
+              'match %s with Ok _ => false | Raises e => err_eqb e %s end' % (model, w[1])
+        md.payload['impl'] = {'write': w[0] if w[0] == 'ok' else w[1], 'read': r[1] if r[0] == 'err' else cg.mol_obs(r[1])['props']}
+        md.case('', exp, model)
+    else:
+        model = 'write_read %s %s %s %s' % (cg.mol_lit(before), _optz(wl), _optz(rl), cg.text_lit(fb))
+        if r[0] == 'err':
+            md.payload['impl'] = r[1]
+            md.case('', 'result_eqb (wr_close %s) (%s) (Raises %s)' % (TOL, model, r[1]), model)
+        else:
+            back = cg.mol_obs(r[1])
+            md.payload['impl'] = {'props_read': back['props'], 'nconf_read': len(back['confs']), 'conf_ids_read': [i for i, _ in back['confs']]}
+            md.case('', 'result_eqb (wr_close %s) (%s) (Ok (%s, %s))' % (TOL, model, cg.mol_lit(after), cg.mol_lit(back)), model)
+    md.nontrivial = n > 1 and r[0] == 'ok'
+    # ---- the property itself, directly on the implementation, inside its stated domain
+    in_domain = d['energies'] in ('none', 'formatted') and safe and (wl is None or wl == -1 or wl >= 1) and (rl is None or rl == -1 or rl >= 1)
+    md.stats['in_domain'] = in_domain
+    if not in_domain:
+        return md
+    if w[0] == 'err' or r[0] == 'err':
+        md.fail('write/read raised inside the domain: %s' % (r[1],), 'sdf:raises')
+        return md
+    problems = []
+    if cg.mol_signature(mol) != before_sig:
+        problems.append('in-memory molecule changed by mol_to_sdf')
+    rd = r[1]
+    lim = lambda x: n if x in (None, -1) else x
+    want = min(n, lim(wl), lim(rl))
+    md.stats['limit_hit_write'] = lim(wl) < n
+    md.stats['limit_hit_read'] = lim(rl) < min(n, lim(wl))
+    if rd.GetNumConformers() != want:
+        problems.append('conformer count %d, expected %d' % (rd.GetNumConformers(), want))
+    heavy = [a.GetIdx() for a in mol.GetAtoms() if a.GetAtomicNum() > 1]
+    if Chem.MolToSmiles(rd, isomericSmiles=True) != Chem.MolToSmiles(Chem.RemoveHs(Chem.Mol(mol)), isomericSmiles=True):
+        problems.append('molecule identity changed')
+    if [a.GetAtomicNum() for a in rd.GetAtoms()] != [mol.GetAtomWithIdx(i).GetAtomicNum() for i in heavy]:
+        problems.append('atom order changed')
+    name0 = before['props'].get('_Name', '')
+    if rd.GetProp('_Name') != name0:
+        problems.append('name %r read as %r' % (name0, rd.GetProp('_Name')))
+    src_confs = list(mol.GetConformers())
+    for j, c in enumerate(rd.GetConformers()):
+        if j < len(src_confs):
+            dev = float(np.abs(np.array(c.GetPositions()) - np.array(src_confs[j].GetPositions())[heavy]).max())
+            if dev > 5e-5 + 1e-12:
+                problems.append('conformer %d deviates by %.2e (order or precision)' % (j, dev))
+                break
+    if [c.GetId() for c in rd.GetConformers()] != list(range(rd.GetNumConformers())):
+        problems.append('ids of the conformers read are not 0..n-1')
+    if d['energies'] == 'formatted':
+        e0 = before['props']['_ConfEnergies'].split('|')
+        got = rd.GetProp('_ConfEnergies').split('|') if rd.HasProp('_ConfEnergies') else None
+        if got != e0[:want]:
+            problems.append('energies %s read as %s' % (e0[:want], got))
+    elif rd.HasProp('_ConfEnergies') or rd.HasProp('Energy'):
+        problems.append('energies appear from nowhere')
+    for k, v in before['props'].items():
+        if k not in ('_ConfEnergies',) and (not rd.HasProp(k) or rd.GetProp(k) != v):
+            problems.append('property %s=%r read as %r' % (k, v, rd.GetProp(k) if rd.HasProp(k) else None))
+    if problems:
+        md.fail('SD round trip violates the property: ' + '; '.join(problems[:3]), 'sdf:' + problems[0].split(' ')[0])
+    return md
+
+
+# --------------------------------------------------------------------------- energy codec
+def draw_codec(rng, i):
+    if i < 2 * len(ZEROISH):
+        v = ZEROISH[i % len(ZEROISH)] * (1 if i < len(ZEROISH) else -1)
+    else:
+        v = rng.choice([rng.uniform(-1000, 1000), rng.randrange(-10 ** 6, 10 ** 6) / 10 ** 4, rng.randrange(-10 ** 5, 10 ** 5) / 32.0,
+                        rng.randrange(-10 ** 4, 10 ** 4) / 10 ** 4 + 5e-5, rng.uniform(-1, 1) * 1e-4])
+    return {'value_hex': float(v).hex()}
+
+
+def make_codec(p, workdir=None):
+    from rdkit import Chem
+    import e3fp.conformer.util as UU
+    v = float.fromhex(p['value_hex'])
+    md = Made(dict(p, stream='codec', value=repr(v)))
+    m = Chem.MolFromSmiles('C')
+    UU.add_conformer_energies_to_mol(m, [v])
+    s = m.GetProp('_ConfEnergies')
+    t = cg.classify_token(s)
+    got = UU.get_conformer_energies_from_mol(m)
+    md.payload['impl'] = s
+    if got is None or len(got) != 1:
+        md.fail('one energy stored, %r read' % (got,), 'codec:lost')
+        return md
+    UU.add_conformer_energies_to_mol(m, [got[0]])
+    if m.GetProp('_ConfEnergies') != s:
+        md.fail('energy codec not idempotent on %r: %s then %s' % (v, s, m.GetProp('_ConfEnergies')), 'codec:idempotent')
+    md.case('', '(fmt4 %s =? %s) && (fmt4 (parse4 %s) =? %s)' % (cg.qlit(v), core.zlit(t[1]), core.zlit(t[1]), core.zlit(t[1])), 'fmt4 %s' % cg.qlit(v))
+    md.nontrivial = abs(v * 1e4 - round(v * 1e4)) > 0.4
+    md.stats = {'zeroish': abs(v) < 5e-5}
+    return md
+
+
+# --------------------------------------------------------------------------- SMILES tables
+ALPHA = 'ABCXYZabcxyz0123456789_-.'
+UNI = ['\xe9', '\xdf', '\u4e2d', '\u03b1']
+SMI_POOL = ['CCO', 'c1ccccc1', 'C[C@H](N)C(=O)O', '[Na+].[Cl-]', 'C/C=C\\C', 'CC(=O)Oc1ccccc1C(=O)O', '[13CH4]', 'N#N', 'C%12CC%12', 'O=C=O', 'F/C=C/F']
+
+
+def _pairs_lit(entries):
+    return core.listlit(['(%s, %s)' % (cg.text_lit(a), cg.text_lit(b)) for a, b in entries])
+
+
+def draw_table(rng, i):
+    def rname():
+        s = ''.join(rng.choice(ALPHA) for _ in range(rng.randrange(1, 9)))
+        if rng.random() < 0.3:
+            s += rng.choice(UNI)
+        if i % 4 == 1 and rng.random() < 0.5:        # names that are NOT good tokens: white space of Unicode or ASCII inside, or a look-alike lead byte
+            s = s[:1] + rng.choice(UWS + LEAD_NOT_WS + ['\t', '\x0c', ' ']) + s[1:] + 'z'
+        return s
+    k = rng.choice([0, 1, 2, 3, 5, 8])
+    names = []
+    while len(names) < k:
+        nm = rname()
+        if nm not in names:
+            names.append(nm)
+    entries = [[nm, rng.choice(SMI_POOL)] for nm in names]
+    use_iter = rng.random() < 0.4
+    if use_iter:
+        rng.shuffle(entries)
+        if rng.random() < 0.3 and entries:
+            entries.append([entries[0][0], rng.choice(SMI_POOL)])        # a duplicate name: the last one wins on reading
+    return {'entries': entries, 'via': 'iter_to_smiles' if use_iter else 'dict_to_smiles', 'ext': ['.smi', '.smi.gz', '.smi.bz2'][i % 3],
+            'unique': rng.random() < 0.3, 'has_header': rng.random() < 0.2}
+
+
+def make_table(p, workdir):
+    from e3fp.conformer import util as U
+    md = Made(dict(p, stream='smiles-table'))
+    entries = [tuple(e) for e in p['entries']]
+    path = os.path.join(workdir, 'smi_%d%s' % (len(os.listdir(workdir)), p['ext']))
+    if p['via'] == 'iter_to_smiles':
+        U.iter_to_smiles(path, entries)
+        wmodel = 'iter_to_smiles %s' % _pairs_lit(entries)
+    else:
+        U.dict_to_smiles(path, dict(entries))
+        wmodel = 'dict_to_smiles %s' % _pairs_lit(entries)
+    raw = _raw(path)
+    r = _attempt(lambda: list(U.smiles_to_dict(path, unique=p['unique'], has_header=p['has_header']).items()))
+    exp = '(Raises %s)' % r[1] if r[0] == 'err' else '(Ok %s)' % _pairs_lit(r[1])
+    md.payload.update(file_bytes=raw.decode('utf-8'), impl=r[1])
+    all_good = all(good_token(a) and good_token(b) for a, b in entries)
+    good_lit = core.blit(all_good)
+    good_model = 'forallb (fun e => good_token_b (fst e) && good_token_b (snd e)) %s' % _pairs_lit(entries)
+    md.case('', 'list_eqb Z.eqb (%s) %s && sdict_result_eqb (smiles_to_dict %s %s %s) %s && Bool.eqb (%s) %s'
+            % (wmodel, core.zlist(list(raw)), core.zlist(list(raw)), core.blit(p['unique']), core.blit(p['has_header']), exp, good_model, good_lit),
+            'smiles_to_dict (%s) %s %s' % (wmodel, core.blit(p['unique']), core.blit(p['has_header'])))
+    md.stats = {'all_good': all_good}
+    # the property directly, inside the theorem's premises: good tokens, distinct names -> the same table
+    names = [a for a, _ in entries]
+    if all_good and len(set(names)) == len(names) and not p['has_header'] and not p['unique']:
+        md.stats['in_domain'] = True
+        if r[0] == 'err' or dict(r[1]) != dict(entries):
+            md.fail('SMILES table does not read back as written', 'smiles:roundtrip')
+    md.nontrivial = len(entries) > 1
+    return md
+
+
+PIECES = ['CCO a\n', 'CCO\n', '\n', '   \n', 'c1ccccc1\tbenz\n', 'CC  b  extra column\n', 'N#N a\r\n', 'smiles name\n', 'C\x0cd\n', 'CO e', '\r', 'CCO b\n',
+          ' O w\n', 'CCN \xe9t\xe9\n', 'CCC x\x1cy\n',
+          # names / fields cut by the white space of Unicode, and look-alikes that must NOT cut
+          'CCO a\xa0b\n', 'C\u2028x y\n', 'CC n\u3000m\n', 'CN \xe9\x85z\n', 'C\u20ac euro\n', '\xa9c name\n', 'CCS\u2009thin\u200bzero w\n', 'OO p\u1680q\u205fr\n',
+          'CF q\u202f\n', '\xa0\n', 'C \u2029\n']
+
+
+def draw_malformed(rng, i):
+    return {'file_text': ''.join(rng.choice(PIECES) for _ in range(rng.randrange(0, 7))), 'ext': ['.smi', '.smi.gz', '.smi.bz2'][i % 3],
+            'unique': rng.random() < 0.4, 'has_header': rng.random() < 0.4}
+
+
+def make_malformed(p, workdir):
+    from e3fp.conformer import util as U
+    md = Made(dict(p, stream='smiles-malformed'))
+    data = p['file_text'].encode('utf-8')
+    path = os.path.join(workdir, 'mal_%d%s' % (len(os.listdir(workdir)), p['ext']))
+    op = bz2.open if p['ext'].endswith('.bz2') else gzip.open if p['ext'].endswith('.gz') else open
+    with op(path, 'wb') as f:
+        f.write(data)
+    r = _attempt(lambda: list(U.smiles_to_dict(path, unique=p['unique'], has_header=p['has_header']).items()))
+    g = _attempt(lambda: [tuple(x) for x in U.smiles_generator(path)])
+    exp = '(Raises %s)' % r[1] if r[0] == 'err' else '(Ok %s)' % _pairs_lit(r[1])
+    gexp = _pairs_lit(g[1]) if g[0] == 'ok' else '[]'
+    md.payload.update(impl=r[1], impl_generator=g[1])
+    md.case('', 'sdict_result_eqb (smiles_to_dict %s %s %s) %s && entries_eqb (smiles_generator %s) %s'
+            % (core.zlist(list(data)), core.blit(p['unique']), core.blit(p['has_header']), exp, core.zlist(list(data)), gexp),
+            'smiles_to_dict %s %s %s' % (core.zlist(list(data)), core.blit(p['unique']), core.blit(p['has_header'])))
+    md.stats = {'unicode_ws': any(u in p['file_text'] for u in UWS)}
+    md.nontrivial = len(p['file_text']) > 8
+    return md
+
+
+MAKERS = {'sdf': make_sd, 'codec': make_codec, 'smiles-table': make_table, 'smiles-malformed': make_malformed}
+PARAM_KEYS = {'sdf': ('base', 'variation', 'mol_b64', 'ext', 'write_limit', 'read_limit', 'file'), 'codec': ('value_hex',),
+              'smiles-table': ('entries', 'via', 'ext', 'unique', 'has_header'), 'smiles-malformed': ('file_text', 'ext', 'unique', 'has_header')}
 
 
 def run(ctx):
     ok, res = core.proof_step(ctx)
-    from rdkit import Chem
-    from e3fp.conformer import util as U
+    from rdkit import RDLogger
+    RDLogger.DisableLog('rdApp.*')       # the unreadable records and dropped values generated on purpose are noisy
     rng = ctx.rng
     cases, payloads, mexpr = [], {}, {}
-    found_input = False
-    dist = {'sd_cases': 0, 'sd_in_domain': 0, 'by_ext': {}, 'by_ids': {}, 'by_energies': {}, 'limits_hit_write': 0, 'limits_hit_read': 0,
-            'errors_expected': 0, 'smiles_tables': 0, 'smiles_malformed': 0, 'codec_values': 0}
+    found = [False]
+    dist = {'cases_by_stream': {}, 'params_by_stream': {}, 'skipped': {}, 'sd_in_domain': 0, 'by_ext': {}, 'by_ids': {}, 'by_energies': {},
+            'sd_with_zeroish_energy': 0, 'sd_title_with_line_feed': 0, 'sd_value_with_line_feed': 0, 'limits_hit_write': 0, 'limits_hit_read': 0,
+            'errors_expected': 0, 'codec_zeroish': 0, 'tables_in_theorem_domain': 0, 'tables_with_not_good_token': 0, 'malformed_with_unicode_ws': 0}
 
-    def add_case(key, expr, payload, model):
-        cases.append((key, expr))
-        payloads[key] = payload
-        mexpr[key] = model
+    def bump(d, k, n=1):
+        d[k] = d.get(k, 0) + n
 
-    def bump(d, k):
-        d[k] = d.get(k, 0) + 1
+    def take(stream, tag, params, sample=False):
+        md = MAKERS[stream](params, ctx.workdir)
+        bump(dist['params_by_stream'], stream)
+        for why in md.skips:
+            bump(dist['skipped'], '%s: %s' % (stream, why))
+        for sub, expr, model in md.cases:
+            key = '%s/%s%s' % (stream, tag, ('/' + sub) if sub else '')
+            cases.append((key, expr))
+            payloads[key] = md.payload
+            mexpr[key] = model
+            bump(dist['cases_by_stream'], stream)
+        for what, fk, extra in md.fails:
+            found[0] = True
+            ctx.fail(what, dict(md.payload, **extra), finding_key=fk)
+        ctx.count((stream, json.dumps({k: params.get(k) for k in PARAM_KEYS[stream]}, sort_keys=True, default=str)), md.nontrivial and bool(md.cases))
+        if sample and md.cases:
+            ctx.sample({'case': '%s/%s' % (stream, tag), 'parameters': {k: params.get(k) for k in PARAM_KEYS[stream] if k != 'mol_b64'},
+                        'implementation': md.payload.get('impl'), 'model_check': md.cases[0][1][:300]})
+        return md
 
-    # ---------------------------------------------------------------- SD files
-    bases = base_molecules(ctx)
-    n_sd = ctx.n(90, 900)
-    for ci in range(n_sd):
-        bname, base = bases[ci % len(bases)] if ci < len(bases) else rng.choice(bases)
-        mol, d = vary(rng, base)
-        n = mol.GetNumConformers()
-        ext = EXTS[ci % 3]
-        wl = rng.choice([None, None, -1, 1, 2, 2, n, n + 3] if ci % 11 else [0, 1, -3])
-        rl = rng.choice([None, None, -1, 1, 2, n + 1] if ci % 13 else [0, 1, -3])
-        fname = rng.choice(['conf', 'CHEMBL12_3', 'a.b']) + ext
-        path = os.path.join(ctx.workdir, 'sd_%d' % ci, fname)
-        before = cg.mol_obs(mol)
-        before_sig = cg.mol_signature(mol)
-        pl = {'stream': 'sdf', 'base': bname, 'variation': d, 'ext': ext, 'write_limit': wl, 'read_limit': rl, 'file': fname,
-              'props_before': before['props'], 'conf_ids': [i for i, _ in before['confs']]}
-        w = _attempt(lambda: U.mol_to_sdf(mol, path, conf_num=wl))
-        after = cg.mol_obs(mol)
-        pl['props_after_write'] = after['props']
-        r = ('err', w[1]) if w[0] == 'err' else _attempt(lambda: U.mol_from_sdf(path, conf_num=rl))
-        fb = os.path.basename(path).split('.sdf')[0]
-        model = 'write_read %s %s %s %s' % (cg.mol_lit(before), _optz(wl), _optz(rl), cg.text_lit(fb))
-        key = 'sd/%d' % ci
-        if r[0] == 'err':
-            dist['errors_expected'] += 1
-            pl['impl'] = r[1]
-            add_case(key, 'result_eqb (wr_close %s) (%s) (Raises %s)' % (TOL, model, r[1]), pl, model)
-        else:
-            back = cg.mol_obs(r[1])
-            pl['impl'] = {'props_read': back['props'], 'nconf_read': len(back['confs']), 'conf_ids_read': [i for i, _ in back['confs']]}
-            add_case(key, 'result_eqb (wr_close %s) (%s) (Ok (%s, %s))' % (TOL, model, cg.mol_lit(after), cg.mol_lit(back)), pl, model)
-        dist['sd_cases'] += 1
-        bump(dist['by_ext'], ext)
+    bases = base_molecules(ctx, dist['skipped'])
+    for ci in range(ctx.n(90, 900)):
+        p = draw_sd(rng, bases, ci)
+        md = take('sdf', str(ci), p, sample=ci < 2)
+        d = p['variation']
+        bump(dist['by_ext'], p['ext'])
         bump(dist['by_ids'], d['ids'])
         bump(dist['by_energies'], d['energies'])
-        ctx.count(('sd', bname, json.dumps(d, sort_keys=True), ext, wl, rl), n > 1 and r[0] == 'ok')
-        if ci < 3:
-            ctx.sample({'case': key, 'input': {k: pl[k] for k in ('base', 'variation', 'ext', 'write_limit', 'read_limit', 'props_before')},
-                        'implementation': pl['impl']})
-        # ---- the property itself, directly on the implementation, inside its stated domain
-        if not in_domain(d, wl, rl):
-            continue
-        dist['sd_in_domain'] += 1
-        if w[0] == 'err' or r[0] == 'err':
-            found_input = True
-            ctx.fail('write/read raised inside the domain: %s' % (r[1],), pl, finding_key='sdf:raises')
-            continue
-        problems = []
-        if cg.mol_signature(mol) != before_sig:
-            problems.append('in-memory molecule changed by mol_to_sdf')
-        rd = r[1]
-        lim = lambda x: n if x in (None, -1) else x
-        want = min(n, lim(wl), lim(rl))
-        dist['limits_hit_write'] += lim(wl) < n
-        dist['limits_hit_read'] += lim(rl) < min(n, lim(wl))
-        if rd.GetNumConformers() != want:
-            problems.append('conformer count %d, expected %d' % (rd.GetNumConformers(), want))
-        heavy = [a.GetIdx() for a in mol.GetAtoms() if a.GetAtomicNum() > 1]
-        if Chem.MolToSmiles(rd, isomericSmiles=True) != Chem.MolToSmiles(Chem.RemoveHs(Chem.Mol(mol)), isomericSmiles=True):
-            problems.append('molecule identity changed')
-        if [a.GetAtomicNum() for a in rd.GetAtoms()] != [mol.GetAtomWithIdx(i).GetAtomicNum() for i in heavy]:
-            problems.append('atom order changed')
-        name0 = before['props'].get('_Name', '')
-        if rd.GetProp('_Name') != name0:
-            problems.append('name %r read as %r' % (name0, rd.GetProp('_Name')))
-        src_confs = list(mol.GetConformers())
-        for j, c in enumerate(rd.GetConformers()):
-            if j < len(src_confs):
-                dev = float(np.abs(np.array(c.GetPositions()) - np.array(src_confs[j].GetPositions())[heavy]).max())
-                if dev > 5e-5 + 1e-12:
-                    problems.append('conformer %d deviates by %.2e (order or precision)' % (j, dev))
-                    break
-        if [c.GetId() for c in rd.GetConformers()] != list(range(rd.GetNumConformers())):
-            problems.append('ids of the conformers read are not 0..n-1')
-        if d['energies'] == 'formatted':
-            e0 = before['props']['_ConfEnergies'].split('|')
-            got = rd.GetProp('_ConfEnergies').split('|') if rd.HasProp('_ConfEnergies') else None
-            if got != e0[:want]:
-                problems.append('energies %s read as %s' % (e0[:want], got))
-        elif rd.HasProp('_ConfEnergies') or rd.HasProp('Energy'):
-            problems.append('energies appear from nowhere')
-        for k, v in before['props'].items():
-            if k not in ('_ConfEnergies',) and (not rd.HasProp(k) or rd.GetProp(k) != v):
-                problems.append('property %s=%r read as %r' % (k, v, rd.GetProp(k) if rd.HasProp(k) else None))
-        if problems:
-            found_input = True
-            ctx.fail('SD round trip violates the property: ' + '; '.join(problems[:3]), pl, finding_key='sdf:' + problems[0].split(' ')[0])
-
-    # ---------------------------------------------------------------- energy codec on its own
-    import e3fp.conformer.util as UU
+        dist['sd_with_zeroish_energy'] += d['energies'] in ('formatted', 'raw', 'fewer', 'more') and d['zeroish'] > 0
+        dist['sd_title_with_line_feed'] += d['name'] == 'line-feed'
+        dist['sd_value_with_line_feed'] += d['value'] == 'line-feed'
+        dist['errors_expected'] += md.stats['error']
+        dist['sd_in_domain'] += md.stats['in_domain']
+        dist['limits_hit_write'] += md.stats.get('limit_hit_write', False)
+        dist['limits_hit_read'] += md.stats.get('limit_hit_read', False)
     for i in range(ctx.n(300, 3000)):
-        v = rng.choice([rng.uniform(-1000, 1000), rng.randrange(-10 ** 6, 10 ** 6) / 10 ** 4, rng.randrange(-10 ** 5, 10 ** 5) / 32.0,
-                        rng.randrange(-10 ** 4, 10 ** 4) / 10 ** 4 + 5e-5, rng.uniform(-1, 1) * 1e-4])
-        m = Chem.MolFromSmiles('C')
-        UU.add_conformer_energies_to_mol(m, [v])
-        s = m.GetProp('_ConfEnergies')
-        t = cg.classify_token(s)
-        back = UU.get_conformer_energies_from_mol(m)[0]
-        UU.add_conformer_energies_to_mol(m, [back])
-        if m.GetProp('_ConfEnergies') != s:
-            found_input = True
-            ctx.fail('energy codec not idempotent on %r: %s then %s' % (v, s, m.GetProp('_ConfEnergies')), {'value': repr(v)}, finding_key='codec:idempotent')
-        add_case('codec/%d' % i, '(fmt4 %s =? %s) && (fmt4 (parse4 %s) =? %s)' % (cg.qlit(v), core.zlit(t[1]), core.zlit(t[1]), core.zlit(t[1])),
-                 {'stream': 'codec', 'value': repr(v), 'impl': s}, 'fmt4 %s' % cg.qlit(v))
-        dist['codec_values'] += 1
-        ctx.count(('codec', repr(v)), abs(v * 1e4 - round(v * 1e4)) > 0.4)
-
-    # ---------------------------------------------------------------- SMILES tables
-    alpha_names = 'ABCXYZabcxyz0123456789_-.'
-    uni = ['é', 'ß', '中', 'α']
-    smi_pool = ['CCO', 'c1ccccc1', 'C[C@H](N)C(=O)O', '[Na+].[Cl-]', 'C/C=C\\C', 'CC(=O)Oc1ccccc1C(=O)O', '[13CH4]', 'N#N', 'C%12CC%12', 'O=C=O', 'F/C=C/F']
-
-    def rname():
-        s = ''.join(rng.choice(alpha_names) for _ in range(rng.randrange(1, 9)))
-        if rng.random() < 0.3:
-            s += rng.choice(uni)
-        return s
-
+        md = take('codec', str(i), draw_codec(rng, i))
+        dist['codec_zeroish'] += md.stats.get('zeroish', False)
     for i in range(ctx.n(60, 600)):
-        ext = ['.smi', '.smi.gz', '.smi.bz2'][i % 3]
-        k = rng.choice([0, 1, 2, 3, 5, 8])
-        names = []
-        while len(names) < k:
-            nm = rname()
-            if nm not in names:
-                names.append(nm)
-        table = {nm: rng.choice(smi_pool) for nm in names}
-        path = os.path.join(ctx.workdir, 'smi_%d%s' % (i, ext))
-        use_iter = rng.random() < 0.4
-        entries = list(table.items())
-        if use_iter:
-            rng.shuffle(entries)
-            if rng.random() < 0.3 and entries:
-                entries.append((entries[0][0], rng.choice(smi_pool)))        # a duplicate name: the last one wins on reading
-            U.iter_to_smiles(path, entries)
-            wmodel = 'iter_to_smiles %s' % core.listlit(['(%s, %s)' % (cg.text_lit(a), cg.text_lit(b)) for a, b in entries])
-        else:
-            U.dict_to_smiles(path, table)
-            wmodel = 'dict_to_smiles %s' % core.listlit(['(%s, %s)' % (cg.text_lit(a), cg.text_lit(b)) for a, b in entries])
-        raw = _raw(path)
-        unique = rng.random() < 0.3
-        header = rng.random() < 0.2
-        r = _attempt(lambda: list(U.smiles_to_dict(path, unique=unique, has_header=header).items()))
-        exp = '(Raises %s)' % r[1] if r[0] == 'err' else '(Ok %s)' % core.listlit(['(%s, %s)' % (cg.text_lit(a), cg.text_lit(b)) for a, b in r[1]])
-        pl = {'stream': 'smiles-table', 'ext': ext, 'entries': entries, 'via': 'iter_to_smiles' if use_iter else 'dict_to_smiles', 'unique': unique,
-              'has_header': header, 'file_bytes': raw.decode('utf-8'), 'impl': r[1]}
-        add_case('smi/%d' % i, 'list_eqb Z.eqb (%s) %s && sdict_result_eqb (smiles_to_dict %s %s %s) %s'
-                 % (wmodel, core.zlist(list(raw)), core.zlist(list(raw)), core.blit(unique), core.blit(header), exp), pl,
-                 'smiles_to_dict (%s) %s %s' % (wmodel, core.blit(unique), core.blit(header)))
-        # the property directly: a table with distinct names reads back as the same table
-        if not use_iter and not header and not unique:
-            if r[0] == 'err' or dict(r[1]) != table:
-                found_input = True
-                ctx.fail('SMILES table does not read back as written', pl, finding_key='smiles:roundtrip')
-        dist['smiles_tables'] += 1
-        ctx.count(('smi', json.dumps(entries), ext, unique, header), k > 1)
-        if i < 2:
-            ctx.sample({'case': 'smi/%d' % i, 'input': {k2: pl[k2] for k2 in ('entries', 'via', 'ext', 'unique', 'has_header')}, 'implementation': r[1]})
-
-    # malformed / foreign streams: blank lines, one field, tabs, CRLF, extra columns, header, duplicates
-    pieces = ['CCO a\n', 'CCO\n', '\n', '   \n', 'c1ccccc1\tbenz\n', 'CC  b  extra column\n', 'N#N a\r\n', 'smiles name\n', 'C\x0cd\n', 'CO e', '\r', 'CCO b\n',
-              ' O w\n', 'CCN été\n', 'CCC x\x1cy\n']
+        md = take('smiles-table', str(i), draw_table(rng, i), sample=i < 2)
+        dist['tables_in_theorem_domain'] += md.stats.get('in_domain', False)
+        dist['tables_with_not_good_token'] += not md.stats['all_good']
     for i in range(ctx.n(60, 600)):
-        body = ''.join(rng.choice(pieces) for _ in range(rng.randrange(0, 7)))
-        ext = ['.smi', '.smi.gz', '.smi.bz2'][i % 3]
-        path = os.path.join(ctx.workdir, 'mal_%d%s' % (i, ext))
-        data = body.encode('utf-8')
-        op = bz2.open if ext.endswith('.bz2') else gzip.open if ext.endswith('.gz') else open
-        with op(path, 'wb') as f:
-            f.write(data)
-        unique = rng.random() < 0.4
-        header = rng.random() < 0.4
-        r = _attempt(lambda: list(U.smiles_to_dict(path, unique=unique, has_header=header).items()))
-        g = _attempt(lambda: [tuple(x) for x in U.smiles_generator(path)])
-        exp = '(Raises %s)' % r[1] if r[0] == 'err' else '(Ok %s)' % core.listlit(['(%s, %s)' % (cg.text_lit(a), cg.text_lit(b)) for a, b in r[1]])
-        gexp = core.listlit(['(%s, %s)' % (cg.text_lit(a), cg.text_lit(b)) for a, b in g[1]]) if g[0] == 'ok' else '[]'
-        pl = {'stream': 'smiles-malformed', 'ext': ext, 'file_text': body, 'unique': unique, 'has_header': header, 'impl': r[1], 'impl_generator': g[1]}
-        add_case('mal/%d' % i, 'sdict_result_eqb (smiles_to_dict %s %s %s) %s && entries_eqb (smiles_generator %s) %s'
-                 % (core.zlist(list(data)), core.blit(unique), core.blit(header), exp, core.zlist(list(data)), gexp), pl,
-                 'smiles_to_dict %s %s %s' % (core.zlist(list(data)), core.blit(unique), core.blit(header)))
-        dist['smiles_malformed'] += 1
-        ctx.count(('mal', body, unique, header), len(body) > 8)
+        md = take('smiles-malformed', str(i), draw_malformed(rng, i))
+        dist['malformed_with_unicode_ws'] += md.stats['unicode_ws']
 
-    def fkey(k, pl):
-        return 'model-vs-code:%s' % pl.get('stream')
-    nbad = core.compare_cases(ctx, cases, IMPORTS, 'C19 conformer and SMILES files', payloads, model_expr=mexpr, finding_key_of=fkey, shard=100)
-    found_input = found_input or nbad > 0
-    ctx.coverage['rule'] = ('SD: shipped (tests/data, first 1/3/5 conformers) and freshly embedded molecules x .sdf/.sdf.gz/.sdf.bz2 x write limit x read limit x '
-                            '{no energies, formatted, raw spellings, fewer/more energies than conformers, own Energy property, unparsable} x {contiguous, removed, '
-                            'renumbered conformer ids} x name/extra properties; non-trivial = more than one conformer and no exception. Energy codec: random and '
-                            'half-way values. SMILES tables: random distinct names (digits, _, -, ., unicode) through plain/gz/bz2, unique/has_header flags; '
-                            'malformed streams assembled from blank / one-field / tabbed / CRLF / extra-column / form-feed pieces; distinct by full input')
+    for stream in MAKERS:
+        if not dist['cases_by_stream'].get(stream):
+            ctx.fail('stream %s produced no comparable case (%d parameter sets drawn)' % (stream, dist['params_by_stream'].get(stream, 0)), {'stream': stream},
+                     no_input=True, kind='harness-error')
+    for need in ('sd_with_zeroish_energy', 'sd_title_with_line_feed', 'sd_value_with_line_feed', 'tables_with_not_good_token', 'malformed_with_unicode_ws',
+                 'tables_in_theorem_domain', 'sd_in_domain'):
+        if not dist[need]:
+            ctx.fail('generator did not produce any input of class %s' % need, {'class': need}, no_input=True, kind='harness-error')
+
+    nbad = core.compare_cases(ctx, cases, IMPORTS, 'C19 conformer and SMILES files', payloads, model_expr=mexpr,
+                              finding_key_of=lambda k, pl: 'model-vs-code:%s' % pl.get('stream'), shard=100)
+    found_input = found[0] or nbad > 0
+    ctx.coverage['rule'] = ('sdf: shipped (tests/data, first 1/3/5 stereo-consistent conformers) and freshly embedded molecules x .sdf/.sdf.gz/.sdf.bz2 x write limit x '
+                            'read limit x {no energies, formatted, raw spellings, fewer/more energies than conformers, own Energy property, unparsable} (zero, negative '
+                            'zero and |e| < 5e-5 forced into every other energy list) x {contiguous, removed, renumbered conformer ids} x names (incl. NBSP, tab, a '
+                            'line feed = unreadable record) x property values (incl. line feeds: write half compared only); non-trivial = more than one conformer and no '
+                            'exception. codec: the zero-ish values, random and half-way values. smiles-table: random distinct names (digits, _, -, ., Latin-1, Greek, '
+                            'CJK; every 4th table with names cut by Unicode/ASCII white space or carrying a look-alike lead byte) through plain/gz/bz2, unique/has_header '
+                            'flags; good_token_b of the model cross-checked with the harness classification. smiles-malformed: streams assembled from blank / one-field '
+                            '/ tabbed / CRLF / extra-column / form-feed / NBSP / U+2028 / U+3000 / U+0085 pieces; distinct by full input; skipped comparisons are counted '
+                            'under input_distribution.skipped')
     ctx.coverage['input_distribution'] = dist
-    ctx.coverage['trusted_base'] = ['RDKit SDWriter / ForwardSDMolSupplier (molecule identity, "%10.4f" coordinates, properties as strings, `_Name` always defined by the '
-                                    'reader) and smart_open compression: Section variables / oracles of the model, exercised by the correspondence only (testing)',
-                                    'abstractions of the energy codec: the sign of "-0.0000" is dropped; float("d.dddd") is taken as exactly n/10^4']
+    ctx.coverage['trusted_base'] = ['RDKit SDWriter / ForwardSDMolSupplier (molecule identity, "%10.4f" coordinates, properties without line feeds as strings, `_Name` always '
+                                    'defined by the reader) and smart_open compression: Section variables / oracles of the model, exercised by the correspondence only (testing)',
+                                    'abstractions of the energy codec: the sign of "-0.0000" is dropped; float("d.dddd") is taken as exactly n/10^4',
+                                    'files are valid UTF-8 (a decoding error is not modelled)']
     ctx.assumptions += ['PARTIAL: identity of the molecule, coordinate precision (<= 5e-5) and property strings through the SD format are RDKit\'s: tested on %d files, not proved'
-                        % dist['sd_cases'],
-                        'names and SMILES contain no Unicode-only white space (U+0085, U+00A0, U+2000..): the byte-level model does not split there, str.split() does',
+                        % dist['params_by_stream'].get('sdf', 0),
+                        'premises of the theorems: names and SMILES are good tokens (no ASCII white space, none of the UTF-8 lead bytes C2/E1/E2/E3 under which the non-ASCII '
+                        'white space of Unicode lives) and names are distinct; string property values and the title contain no line feed (sd_safe)',
                         'all conformers of a molecule are the same stereoisomer in 3D (the shipped files of molecules with unspecified centres mix stereoisomers; '
                         'the SD reader perceives stereo from the first record): conformers disagreeing with conformer 0 are left out',
                         'explicit hydrogens are dropped by RDKit\'s reader (removeHs=True): identity and coordinates are compared on heavy atoms',
-                        'domain of the direct round-trip assertions: >= 1 conformer, no energies or one formatted energy per conformer, no own `Energy` property, limits None/-1/>= 1; '
-                        'outside it only model = code is checked (see findings/repro_conf.py for what happens there)']
+                        'domain of the direct round-trip assertions: >= 1 conformer, no energies or one formatted energy per conformer, no own `Energy` property, no line feed in '
+                        'name/values, limits None/-1/>= 1; outside it only model = code is checked (see findings/repro_conf.py for what happens there)']
     if not ok:
         core.report_broken_proof(ctx, res, found_input)
 
 
 def replay(ctx, path):
+    """Re-run a recorded case: the implementation from the recorded parameters, the model in Coq; exit 1 if they still disagree
+    or the property is still violated directly."""
     d = json.load(open(path))
-    print(json.dumps(d, indent=1)[:6000])
     c = d.get('case', {})
-    if c.get('stream') == 'smiles-malformed':
-        from e3fp.conformer import util as U
-        p = os.path.join(ctx.workdir, 'replay.smi')
-        open(p, 'wb').write(c['file_text'].encode('utf-8'))
-        print('implementation now:', _attempt(lambda: list(U.smiles_to_dict(p, unique=c['unique'], has_header=c['has_header']).items())))
-    return 0
+    print(json.dumps({k: v for k, v in d.items() if k != 'case'}, indent=1))
+    stream = c.get('stream')
+    if stream not in MAKERS:
+        print(json.dumps(c, indent=1, default=str)[:6000])
+        print('no re-runnable case in this replay file (kind=%s)' % d.get('kind'))
+        shutil.rmtree(ctx.workdir, ignore_errors=True)
+        return 1
+    params = {k: c[k] for k in PARAM_KEYS[stream] if k in c}
+    print('stream %s, parameters: %s' % (stream, json.dumps({k: v for k, v in params.items() if k != 'mol_b64'}, default=str)[:3000]))
+    if stream == 'sdf':
+        print('molecule: props %s, conformer ids %s' % (c.get('props_before'), c.get('conf_ids')))
+    md = MAKERS[stream](params, ctx.workdir)
+    print('implementation now:', json.dumps(md.payload.get('impl'), default=str)[:3000])
+    bad = 0
+    for what, fk, extra in md.fails:
+        print('DIRECT VIOLATION (%s): %s' % (fk, what))
+        bad += 1
+    for why in md.skips:
+        print('comparison skipped:', why)
+    if md.cases:
+        results, logs = core.coq_eval_bools([(sub or 'case', expr) for sub, expr, _ in md.cases], IMPORTS, ctx.workdir + '/replay', shard=50)
+        for sub, expr, model in md.cases:
+            r = results.get(sub or 'case')
+            print('model = implementation on %s: %s' % (sub or 'case', r))
+            if r is not True:
+                bad += 1
+                print('model output:', core.coq_eval_raw(model, IMPORTS, ctx.workdir + '/raw')[-3000:])
+    print('REPLAY %s' % ('FAILS' if bad else 'passes'))
+    shutil.rmtree(ctx.workdir, ignore_errors=True)
+    return 1 if bad else 0
